@@ -1,6 +1,8 @@
+mod cnf_props;
 mod common;
 mod core_props;
 mod enum_props;
+mod optimal_props;
 mod gen;
 mod rng;
 mod space;
@@ -30,6 +32,8 @@ fn main() {
         "C04" => core_props::c04(&a),
         "C05" => core_props::c05(&a),
         "C06" => enum_props::c06(&a),
+        "C19" => cnf_props::c19(&a),
+        "C20" => optimal_props::c20(&a),
         other => { eprintln!("unknown property {other}"); std::process::exit(2); }
     }
 }
